@@ -28,6 +28,7 @@ EXPLANATION = (
     "__post_init__ of a frozen dataclass, and the struct constructor's read-back test `getattr(self, name) != value -> raise` over "
     "its keyword arguments (full for any integer field) when the value is passed by keyword."
     ' Every scalar field of a command struct must receive its value from a named (keyword or plain positional) argument: starred or ** arguments hide the source and bypass the keyword-only read-back guard.'
+    ' A struct looked up in a precomputed table instead of built: the int field used as sequence index is a sink that needs a guard rejecting negative values.'
 )
 LEVEL_TEXT = (
     "Static analysis, full: all narrow sinks at the encode boundary (enumerated from the source, floor 17) are proven to be "
@@ -231,6 +232,25 @@ def run(ctx, rule="C16.G"):
         ctx.fn(c.qualname + ".cstruct")
         sc = c01._operand_struct(repo, c)
         if sc is None:
+            # the struct is not built here but looked up: an int field of the operand used as a sequence index is a narrow sink
+            # of its own (a negative index does not fail, it wraps around); the IndexError of the lookup covers the upper side only
+            anns = {nm: ann for nm, ann, val, k in repo.dataclass_fields(c)}
+            for r_ in A.returns(fn):
+                for sub_ in ast.walk(r_.value) if r_.value is not None else []:
+                    if isinstance(sub_, ast.Subscript) and A.is_self_attr(sub_.slice) and "int" not in I.ann_types(anns.get(sub_.slice.attr)):
+                        n_sinks += 1  # keyed by an enum-valued field: a key outside the table fails the lookup
+                    elif isinstance(sub_, ast.Subscript) and A.is_self_attr(sub_.slice):
+                        base = sub_.value
+                        while isinstance(base, ast.Subscript):
+                            base = base.value
+                        tdef = m.assigns.get(base.id) if isinstance(base, ast.Name) and hasattr(m, "assigns") else None
+                        n_sinks += 1
+                        what = f"operand.{c.name}.{sub_.slice.attr}->index of {src(base)}"
+                        strength, notes = local_guard_strength(ctx, c, m, fn, r_, sub_.slice, 0, 1 << 62, what)
+                        ctx.check(rule, f"{what}:guard", strength in ("full", "lower-only"),
+                                  f"{what}: `{src(sub_)}` is reached without a guard that rejects negative values; a negative index selects an entry from the end of the "
+                                  f"sequence, so e.g. index -1 encodes as the highest valid one instead of being rejected", c.loc(fn),
+                                  sample={"sink": what, "strength": strength})
             continue
         ret = A.returns(fn)[0].value
         sfl = wire.struct_fields(ev, sc)
